@@ -8,10 +8,11 @@ PREFIXES = ["C08_"]
 
 def run(ctx):
     ctx.cov["rule"] = ("seeded random queue hierarchies (2-3 levels, limits/quotas incl. 0, -1, 0.5 GPU; cpu quotas/limits), whole / fractional / "
-                       "gpu-memory / elastic jobs, all actions, 1-3 cycles; running sums recomputed by the spec after every Bind/Pipeline; "
+                       "gpu-memory / elastic jobs, all actions, 1-3 cycles; profile hetero: nodes whose devices differ in memory, gpu-memory pods that are a small portion of a "
+                       "device on the node scored first and a big one on the node they can land on, limits / deserved quotas that hold some of them; running sums recomputed by the spec after every Bind/Pipeline; "
                        "non-trivial = a decision was taken")
     n = 1200 if ctx.quick else 12000
-    st_cluster.run_stage(ctx, PREFIXES, [("mixed", n // 2), ("full", n // 4), ("fraction", n // 4)])
+    st_cluster.run_stage(ctx, PREFIXES, [("mixed", n // 2), ("full", n // 4), ("fraction", n // 4), ("hetero", n // 4)])
     if not ctx.quick:
         st_fixtures.run_stage(ctx, PREFIXES)
 
